@@ -495,3 +495,6 @@ def check_one(case):
                     viol.append(("question-row-bind-count" + (f":col={case['col'][1]}" if case.get("col") else ""), f"{px}: {len(bm.get(px, ()))} binds"))
     helpers = any(v.get("count") or v.get("other") for v in info.values()) or bool(obs.template_paths)
     return {"outcome": "ok", "nt": helpers and not viol, "viol": viol, "tr": ntr}
+
+# as-built additions of the seventh wave (reported with the bound in the evidence)
+BOUND = {k: v + "; seventh wave: " + 'the frozen corpus (closure invariant on every accepted form); a section without rows of its own (or with external-instance rows only) x 4 logic-cell sets at every row boundary of L(3,3) / L(4,3); writer-keyword column names (instance::tag, body::tag, ...)' for k, v in BOUND.items()}
